@@ -129,9 +129,16 @@ class AbstractAst:
         #TODO How to handle sub-formulas?
         entire_spec = self.modular_spec + self.spec
         
-        if not entire_spec.endswith(';'):
-            entire_spec += ';'
-        
+        # The ';' after the last requirement is optional. It is missing if the last
+        # token of the text is not a ';' - white space and comments after the ';'
+        # (a file that ends with a line break) do not count, the lexer skips them.
+        lexer = self.antrlLexerType(InputStream(entire_spec))
+        lexer.removeErrorListeners()
+        tokens = lexer.getAllTokens()
+        if not tokens or tokens[-1].text != ';':
+            # on a line of its own: the text may end with a line comment
+            entire_spec += '\n;'
+
         input_stream = InputStream(entire_spec)
         lexer = self.antrlLexerType(input_stream)
         if not isinstance(lexer, Lexer):
